@@ -53,8 +53,10 @@ class Universe:
     """A generated source.  `order` lists attribute ids by dependency rank, lowest first: an
     attribute depends (modifier source, cap, resistance) only on attributes later in `order`."""
 
-    def __init__(self, rnd, p):
+    def __init__(self, rnd, p, index=0):
         self.p = p
+        self.index = index
+        self._own = itertools.count(4000 + 200 * index)
         self.ch = ch = mem.MemCache()
         dy = p.get('dyadic', True)
         n = p.get('nattr', 7)
@@ -199,6 +201,8 @@ class Universe:
         de = rnd.choice(cand) if cand and rnd.random() < 0.8 else None
         attrs = {a: rnd.choice(self.vals) for a in rnd.sample(self.plain, rnd.randint(1, len(self.plain)))}
         rs = {s: rnd.randint(1, 5) for s in rnd.sample(self.skill_types, rnd.randint(0, 2))}
+        if tid is None and rnd.random() < self.p.get('disjoint', 0.2):
+            tid = next(self._own)      # a type id only this source knows
         cat = self.CATS[kind]
         if rnd.random() < 0.15:
             cat = rnd.choice([TypeCategoryId.module, TypeCategoryId.ship, None, 99])
@@ -590,7 +594,7 @@ class OpGen:
             'charge': 4 if mods else 0,
             'target': 10 if projectors or items else 0,
             'level': 3,
-            'source': 2 if ship_ok and self.p.get('switch', True) else 0,
+            'source': self.p.get('switch_weight', 2) if ship_ok and self.p.get('switch', True) else 0,
             'fleet': 4 if any(uu.fleet for uu in w.unis) else 0,
             'profile': 1,
             'read': 6,
@@ -852,3 +856,43 @@ def coverage(w, dist):
                         dist['cap_hit'] += 1
                 except (KeyError, ZeroDivisionError):
                     pass
+
+
+def observe_stats(w):
+    """Public statistics and validation verdict of every fit (values or exception class names)."""
+    out = {}
+
+    def put(key, f):
+        try:
+            v = f()
+        except ValidationError as e:
+            v = ('ValidationError', sorted((getattr(i, '_vid', None), sorted(int(r) for r in d))
+                                           for i, d in e.data.items()))
+        except DOCUMENTED as e:
+            v = type(e).__name__
+        except ZeroDivisionError:
+            v = 'ZeroDivisionError'
+        out[key] = v
+    for f in w.ss_fits():
+        s = f.stats
+        for name in ('cpu', 'powergrid', 'calibration', 'dronebay', 'drone_bandwidth'):
+            put((f._vid, name), lambda n=name: (getattr(s, n).used, getattr(s, n).output))
+        for name in ('high_slots', 'mid_slots', 'low_slots', 'rig_slots', 'subsystem_slots', 'turret_slots',
+                     'launcher_slots', 'launched_drones'):
+            put((f._vid, name), lambda n=name: (getattr(s, n).used, getattr(s, n).total))
+        put((f._vid, 'hp'), lambda: tuple(s.hp))
+        put((f._vid, 'ehp'), lambda: tuple(s.get_ehp(f.default_incoming_dmg)))
+        put((f._vid, 'worst_ehp'), lambda: tuple(s.worst_case_ehp))
+        put((f._vid, 'dps'), lambda: tuple(s.get_dps()))
+        put((f._vid, 'volley'), lambda: tuple(s.get_volley()))
+        put((f._vid, 'validate'), lambda: f.validate())
+    return out
+
+
+def flat_equal(a, b):
+    """Structural comparison with float tolerance."""
+    if isinstance(a, (tuple, list)) and isinstance(b, (tuple, list)):
+        return len(a) == len(b) and all(flat_equal(x, y) for x, y in zip(a, b))
+    if isinstance(a, (int, float)) and isinstance(b, (int, float)) and not isinstance(a, bool):
+        return C.close(a, b)
+    return a == b
